@@ -31,9 +31,9 @@ PROP = "C25"
 
 # n_expr: trees replayed per format; n_sig: signature/nesting cases (all in the python build, every 2nd / 3rd in the c / plain builds)
 QUICK = {"cfgs": [("Signature_quick", 600)],
-         "n_expr": {"python": 1000}, "n_sig": 80, "per_fn": 10, "per_mod": 200, "jobs": None}
+         "fe_fmts": ["python"], "n_expr": {"python": 800}, "n_sig": 80, "per_fn": 10, "per_mod": 200, "jobs": None}
 THOROUGH = {"cfgs": [("Signature_t2", 3000), ("Signature_t3", 3000)],
-            "n_expr": {"python": 8000, "c": 2000}, "n_sig": 600, "per_fn": 10, "per_mod": 200, "jobs": None}
+            "fe_fmts": ["python", "c"], "n_expr": {"python": 6000, "c": 2000}, "n_sig": 600, "per_fn": 10, "per_mod": 200, "jobs": None}
 
 SIG_DEFAULTS = ["100", "'s'", "None", "(1, 2)", "-1.5", "K"]
 HAZARD_TAGS = ["assoc", "chain", "cond", "inlist", "negpow", "primary", "tuple1"]
@@ -271,6 +271,37 @@ def observe(modname, moddir, acc, ext, wd, timeout=900):
     return recs
 
 
+def frontend_docs(cases, fmt, wd, tag, per_fn=10, per_file=300):
+    """Render ALL cases as module-level functions and run the real front end up to EmbedSignature on them (child
+    processes, no code generation).  -> list of jobs (callable returning [(function, docs-or-None)])"""
+    os.makedirs(wd, exist_ok=True)
+    fns = []
+    for i in range(0, len(cases), per_fn):
+        chunk = cases[i:i + per_fn]
+        fns.append({"fid": "g%d" % (i // per_fn), "params": [("q%d_" % k, "pk" if k < 5 else "ko", c) for k, c in enumerate(chunk)]})
+    jobs_ = []
+    dirs = {"binding": True, "embedsignature": True, "embedsignature.format": fmt}
+    for fi in range(0, len(fns), per_file):
+        part = fns[fi:fi + per_file]
+        lines = ["# cython: language_level=3", "from symh import K, L, M", ""]
+        for fn in part:
+            lines.append("def %s(%s):" % (fn["fid"], L.render_params([(n, k, c["src"]) for n, k, c in fn["params"]])))
+            lines.append("    'd'")
+        path = os.path.join(wd, "c25fe_%s_%s%d.pyx" % (tag, fmt, fi // per_file))
+        with open(path, "w") as f:
+            f.write("\n".join(lines) + "\n")
+
+        def job(path=path, part=part):
+            outf = path[:-4] + ".json"
+            ch = core.run_child(L.FRONTEND, [path, json.dumps(dirs), outf], with_snapshot=True, cwd=wd, timeout=1800)
+            if ch.rc != 0 or not os.path.exists(outf):
+                return part, None, (ch.err or ch.out)[-1500:]
+            with open(outf) as f:
+                return part, json.load(f), ""
+        jobs_.append(job)
+    return jobs_
+
+
 # ---------------------------------------------------------------------------------------------
 # comparison
 
@@ -444,9 +475,21 @@ def run(tier, seed):
             sig_mods.append(m)
 
     phase["prepare"] = round(time.time() - t0 - sum(phase.values()), 1)
+    import concurrent.futures
+    fe_jobs = []
+    for fmt in P["fe_fmts"]:
+        fe_cases = expr_ok if fmt == "python" else core.sample(expr_ok, 3000, rng)
+        fe_jobs += [(fmt, j) for j in frontend_docs(fe_cases, fmt, os.path.join(wd, "fe"), tier)]
+    fe_pool = concurrent.futures.ThreadPoolExecutor(max_workers=max(2, jobs // 2))
+    fe_futs = [(fmt, fe_pool.submit(j)) for fmt, j in fe_jobs]
     build_modules(mods, os.path.join(wd, "build"), jobs, rep)
     phase["build"] = round(time.time() - t0 - sum(phase.values()), 1)
 
+    n_obs = 0
+    n_eval = 0
+    nontriv = set()
+    samples = []
+    stale = {}
     # ---- P: the CPython twins (one per distinct source)
     pydir = os.path.join(wd, "py")
     os.makedirs(pydir, exist_ok=True)
@@ -463,11 +506,6 @@ def run(tier, seed):
         p_recs = {k: f.result() for k, f in pf.items()}
         c_recs = {k: f.result() for k, f in cf.items()}
 
-    n_obs = 0
-    n_eval = 0
-    nontriv = set()
-    samples = []
-    stale = {}
     n_compile_rejects = 0
     rejects = []
     for m in mods:
@@ -479,6 +517,31 @@ def run(tier, seed):
         m.c_recs = c_recs[m.name]
 
     phase["observe"] = round(time.time() - t0 - sum(phase.values()), 1)
+
+    # ---- record validation: the text the real EmbedSignature produces for EVERY valid published tree
+    n_fe = 0
+    for fmt, fut in fe_futs:
+        part, res, err = fut.result()
+        if res is None or res.get("errors"):
+            rep.disagree({"part": "frontend", "fmt": fmt}, "frontend-failed", {"errors": err or res})
+            continue
+        for fn in part:
+            names = [n for n, _, _ in fn["params"]]
+            doc = res["docs"].get(fn["fid"])
+            sigline, rest = split_doc(doc)
+            parts = L.split_embedded(sigline or "", names) if rest == "\n\nd" else None
+            for n, k, c in fn["params"]:
+                n_fe += 1
+                n_eval += 1
+                nontriv.add((c["src"], fmt))
+                r_ = ("embed-missing", {"doc": doc}) if parts is None else check_embedded_default(c, parts[n])
+                if r_:
+                    rep.disagree(dict(expr_desc(c, "embed", fmt, "module"), via="frontend"), r_[0], dict(r_[1], src=c["src"]))
+                if not c["foldish"] and bool(r_) != bool(c["hazard"]):
+                    stale.setdefault("predicted" if c["hazard"] else "unpredicted", []).append(c["src"])
+    fe_pool.shutdown()
+    phase["frontend_wait"] = round(time.time() - t0 - sum(phase.values()), 1)
+
     # ---- expression cases
     for m in expr_mods:
         if not m.build.ok:
@@ -664,6 +727,7 @@ def run(tier, seed):
         "transitions": sum(t["states_generated"] for t in cov["tlc"]),
         "traces_validated_against_impl": n_obs,
         "evaluations": n_eval, "distinct_nontrivial": len(nontriv),
+        "expr_defaults_validated_on_front_end": n_fe,
         "expr_cases_published": len(expr_all), "expr_cases_raising_at_definition": n_raise, "expr_cases_replayed": len(chosen),
         "sig_cases_published": len(sig_all), "sig_cases_replayed": len(sig_chosen),
         "model_node_kinds": kinds, "model_single_cause_hazards": single,
@@ -674,7 +738,7 @@ def run(tier, seed):
         "phase_s": phase,
         "functions_rejected_by_compiler": n_compile_rejects, "compiler_rejections": rejects[:6],
         "modules": [{"name": m.name, "ok": bool(m.build and m.build.ok), "functions": len(m.gen.acc)} for m in mods],
-        "rule": "replayed = seeded sample over the strata (root-cause tags, model hazard, foldable, top constructor, number of operator "
+        "rule": "every valid published tree goes through the real front end (text of the embedded default); compiled replay = seeded sample over the strata (root-cause tags, model hazard, foldable, top constructor, number of operator "
                 "nodes) of the trees TLC published; non-trivial = distinct (default expression, format) pairs whose embedded text was "
                 "compared + distinct (signature case, build) pairs",
         "samples": samples,
